@@ -326,7 +326,8 @@ def make_prog(cfg):
                         return v + 1
                     if n == 'kl_clip':
                         # (also flips "clipping enabled": number <-> None)
-                        return 0.37 if v is None else (None if cfg.seed % 2 else v * 7.0)
+                        # (a value small enough to bind: a checkpoint saying "no clipping" must switch it off again)
+                        return 1e-6 if v is None else (None if cfg.seed % 2 else v * 7.0)
                     if n == 'factor_decay':
                         return 0.3
                     return v * 3.0 + 0.01
